@@ -1,4 +1,9 @@
-#![allow(dead_code, unused_imports, clippy::all)]
+#![allow(forgetting_copy_types, dead_code, unused_imports, unused_variables, unused_mut, clippy::all)]
 pub mod common;
+pub mod types;
 #[cfg(kani)]
 mod c12;
+#[cfg(kani)]
+mod c13;
+#[cfg(kani)]
+mod c14;
